@@ -25,7 +25,7 @@ def run(ctx):
     contents = ["", "a", "banana", "aaaa", "ab ab ab", "xyz", "a\nab\n", "aXa", "ba" * 40, "a" * 100 + "b", "a-5b-c-7-\n", "xabyabz", "-1--2ab-"]
     # replacers made of variable references only: for a match in which none of them is bound the replacement is the empty string (the span disappears)
     varonly = [("'-' maybe (digit = d)", "d"), ("'ab'", "nothing"), ("'a' maybe ('b' = x)", "x"), ("('a' = x) or 'b'", "x x"), ("'-' maybe ('-' = m) maybe (digit = d)", "m d")]
-    n = 120 if quick else 1500
+    n = 120 if quick else 8000
     for i in range(n):
         b = rng.choice(bodies)
         if rng.random() < 0.3:
@@ -80,8 +80,17 @@ def run(ctx):
     ev = 0
     nt = set()
     for i, (r, (src, kind, mode, files, stale)) in enumerate(zip(res, meta)):
-        if "panic" in r or r.get("hang") or r.get("fatal") or r.get("oom"):
-            ctx.violation("RunFiles panicked / hung", {"source": src, "mode": mode, "files": [[f, c[:200] + ("... (%d bytes)" % len(c) if len(c) > 200 else "")] for f, c in files], "panic": r.get("panic")})
+        if "panic" in r or r.get("fatal"):
+            ctx.violation("RunFiles panicked", {"source": src, "mode": mode, "files": [[f, c[:200] + ("... (%d bytes)" % len(c) if len(c) > 200 else "")] for f, c in files], "panic": r.get("panic")})
+            continue
+        if r.get("hang") or r.get("oom"):
+            # a generated program that backtracks exponentially on this content: time is not this property's business (C10 decides termination);
+            # it is a violation here only if the model finishes the same run within its step bound
+            mk = [k for k in mres if k.startswith("s%d_" % i)]
+            if mk and all(mres[k].startswith("(ok") for k in mk):
+                ctx.violation("RunFiles does not return although the model does", {"source": src, "mode": mode, "files": [[f, c[:200]] for f, c in files]})
+            else:
+                ctx.coverage["expensive_programs_skipped"] = ctx.coverage.get("expensive_programs_skipped", 0) + 1
             continue
         if "snapshot" not in r:
             continue
